@@ -239,6 +239,10 @@ pub mod q {
     pub fn nodes_ids_values(ids: Vec<QueryId>, v: Vec<Vec<DbKeyValue>>) -> MQ {
         MQ::InsertNodes(QueryBuilder::insert().nodes().ids(ids).values(v).query())
     }
+    /// insert-or-update of existing nodes that also (re)assigns their aliases
+    pub fn nodes_ids_aliases(ids: Vec<QueryId>, names: &[&str]) -> MQ {
+        MQ::InsertNodes(QueryBuilder::insert().nodes().ids(ids).aliases(names.iter().map(|s| s.to_string()).collect::<Vec<String>>()).query())
+    }
     pub fn edges(from: Vec<QueryId>, to: Vec<QueryId>) -> MQ {
         MQ::InsertEdges(QueryBuilder::insert().edges().from(from).to(to).query())
     }
